@@ -247,8 +247,8 @@ PROP_GEN = {
             "main_deps": ["AutomatonProofs.vo", "GenBase.vo"], "main_cone": ["AutomatonProofs.v", "GenBase.v"]},
     "C03": {"modules": ["RegexNodeGen"], "files": ["GenLinkRegexNode.v", "GenPropsRegexNode.v", "C03g.v"],
             "main_deps": ["SemProofs.vo", "MergeProofs.vo", "GenBase.vo"], "main_cone": ["SemProofs.v", "MergeProofs.v", "GenBase.v"]},
-    "C04": {"modules": ["FastSetGen"], "files": ["GenLinkFastSet.v", "GenPropsFastSet.v", "C04g.v"],
-            "main_deps": ["Minimizer.vo", "GenBase.vo"], "main_cone": ["Minimizer.v", "GenBase.v"]},
+    "C04": {"modules": ["FastSetGen", "BasePartGen"], "files": ["GenLinkFastSet.v", "GenPropsFastSet.v", "GenLinkBasePart.v", "GenPropsBasePart.v", "C04g.v"],
+            "main_deps": ["Minimizer.vo", "HopPart.vo", "GenBase.vo"], "main_cone": ["Minimizer.v", "HopPart.v", "GenBase.v"]},
     "C19": {"modules": ["BfsQueueGen"], "files": ["GenLinkBfsQueue.v", "GenPropsBfsQueue.v", "C19g.v"],
             "main_deps": ["GenBase.vo"], "main_cone": ["GenBase.v"]},
     "C16": {"modules": ["InclusionGen"], "files": ["GenLinkInclusion.v", "GenPropsInclusion.v", "C16g.v"],
